@@ -1081,7 +1081,8 @@ func (e *Engine) enterLoop(st *State, li *loopInfo, from *ssa.BasicBlock, k cont
 // ghostInLoop: a ghost variable is havocked at a loop head only if a hook
 // inside the loop body assigns it.
 func (c *Ctx) ghostInLoop(li *loopInfo, g string) bool {
-	if strings.HasPrefix(g, "$visited!") {
+	if strings.HasPrefix(g, "$visited!") || strings.HasPrefix(g, "$vset!") {
+		g = "$visited!" + g[strings.Index(g, "!")+1:]
 		for b := range li.body {
 			for _, in := range b.Instrs {
 				if nx, ok := in.(*ssa.Next); ok {
@@ -1143,7 +1144,7 @@ func (st *State) freshValLike(old Val, prefix string) Val {
 	return v
 }
 
-func (e *Engine) backEdge(st *State, li *loopInfo) {
+func (e *Engine) backEdge(st *State, li *loopInfo, from *ssa.BasicBlock) {
 	fn := st.fr.fn
 	if st.dry == nil && fn == st.ctx.fn {
 		// vacuity guard: some path that goes round the loop must be satisfiable
@@ -1172,7 +1173,11 @@ func (e *Engine) backEdge(st *State, li *loopInfo) {
 	}
 	for i, ie := range ls.IterEnsures {
 		env := st.specEnv("iteration ensures")
+		// evaluated where the iteration ends: the body's own variables are in scope
 		env.scope = li.header
+		if from != nil {
+			env.scope = from
+		}
 		env.loopOrd = li.ordinal
 		t, err := st.evalClause(env, ie)
 		name := fmt.Sprintf("%siter[loop %d]#%d", prefix, li.ordinal, i+1)
@@ -1265,6 +1270,25 @@ func (e *Engine) jump(st *State, from, to *ssa.BasicBlock, k cont) {
 		return // the dry run only covers the loop body
 	}
 	loops := e.loopsOf(st.fr.fn)
+	// a loop declared exhaustive is left only through its header (or by returning): a jump from
+	// inside its body to the header's exit block is a break
+	if c := st.fr.contract; c != nil && st.dry == nil {
+		for _, li := range loops {
+			ls := c.Loops[li.ordinal]
+			if ls == nil || !ls.Exhaustive || !li.body[from] || from == li.header || li.body[to] {
+				continue
+			}
+			for _, ex := range li.header.Succs {
+				if ex == to && !li.body[ex] {
+					name := fmt.Sprintf("%s.%s#exhaustive[loop %d]", shortPkg(funcPkgPath(st.fr.fn)), funcKey(st.fr.fn), li.ordinal)
+					st.obligeNamed(name, "exhaustive", st.posOf(from.Instrs[len(from.Instrs)-1]), TFalse, fmt.Sprintf("loop %d is left only when its range is exhausted (no break)", li.ordinal))
+					if st.dead {
+						return
+					}
+				}
+			}
+		}
+	}
 	// leaving loops
 	for h := range st.fr.active {
 		if li := loops[h]; li != nil && !li.body[to] {
@@ -1273,7 +1297,7 @@ func (e *Engine) jump(st *State, from, to *ssa.BasicBlock, k cont) {
 	}
 	if li, ok := loops[to]; ok {
 		if st.fr.active[to] {
-			e.backEdge(st, li)
+			e.backEdge(st, li, from)
 			return // path ends at the cut point
 		}
 		e.enterLoop(st, li, from, k)
@@ -1588,6 +1612,9 @@ func (e *Engine) step(st *State, instr ssa.Instruction) {
 		st.fr.regs[in] = Val{T: x.T, L: x.L}
 		// number of keys handed out so far by this iteration (see doNext)
 		st.ghost["$visited!"+subjectOf(in.X)] = intVal(I(0))
+		// the set of keys handed out so far, and the key set the iteration started with
+		st.ghost["$vset!"+subjectOf(in.X)] = Val{L: []Term{{"((as const (Array Int Bool)) false)", arrSort(SBool)}}}
+		st.ghost["$vdom!"+subjectOf(in.X)] = Val{L: []Term{st.mapDom(x)}}
 	case *ssa.Send:
 		e.doSend(st, in, st.get(in.Chan), st.get(in.X))
 	case *ssa.SliceToArrayPointer:
@@ -2084,6 +2111,21 @@ func (e *Engine) doNext(st *State, in *ssa.Next, k func(*State)) {
 		if cur, has := st.ghost[gk]; has {
 			st.assume(Implies(ok, Lt(cur.term(), st.mapLen(m))))
 			st.ghost[gk] = intVal(st.named(Ite(ok, Add(cur.term(), I(1)), cur.term())))
+		}
+		sk, dk := "$vset!"+subjectOf(rg.X), "$vdom!"+subjectOf(rg.X)
+		if vs, has := st.ghost[sk]; has && len(key.L) == 1 && key.L[0].Sort == SInt {
+			kt := st.mapKeyTerm(m, key)
+			set := vs.L[0]
+			// each key is handed out at most once ...
+			st.assume(Implies(ok, Not(Select(set, kt))))
+			// ... and when the iteration ends over a key set that did not change, every key was handed out
+			if d0, has := st.ghost[dk]; has {
+				q := st.ctx.freshName("vk")
+				dom := st.mapDom(m)
+				all := Term{fmt.Sprintf("(forall ((%s Int)) (! (=> (select %s %s) (select %s %s)) :pattern ((select %s %s))))", q, dom.S, q, set.S, q, dom.S, q), SBool}
+				st.assume(Implies(And(Not(ok), Eq(dom, d0.L[0])), all))
+			}
+			st.ghost[sk] = Val{L: []Term{Ite(ok, Store(set, kt, TTrue), set)}}
 		}
 	}
 	val := st.mapLookup(m, key, false, nil)
